@@ -800,15 +800,17 @@ class Text(JupyterMixin):
                         "style must not be set when appending Text instance"
                     )
                 text_length = self._length
+                # a list, made first: text may be this very instance
+                new_spans = [
+                    _Span(start + text_length, end + text_length, style)
+                    for start, end, style in text._spans
+                ]
                 if text.style is not None:
                     self._spans.append(
                         _Span(text_length, text_length + len(text), text.style)
                     )
                 self._text.append(text.plain)
-                self._spans.extend(
-                    _Span(start + text_length, end + text_length, style)
-                    for start, end, style in text._spans
-                )
+                self._spans.extend(new_spans)
                 self._length += len(text)
         return self
 
@@ -821,13 +823,15 @@ class Text(JupyterMixin):
         """
         _Span = Span
         text_length = self._length
+        # a list, made first: text may be this very instance
+        new_spans = [
+            _Span(start + text_length, end + text_length, style)
+            for start, end, style in text._spans
+        ]
         if text.style is not None:
             self._spans.append(_Span(text_length, text_length + len(text), text.style))
         self._text.append(text.plain)
-        self._spans.extend(
-            _Span(start + text_length, end + text_length, style)
-            for start, end, style in text._spans
-        )
+        self._spans.extend(new_spans)
         self._length += len(text)
         return self
 
